@@ -325,6 +325,11 @@ def _axis(k, a, pos=1):
     return None if ax is None else _int(ax)
 
 
+def _not_handled():
+    from .alg import NotHandled
+    raise NotHandled()
+
+
 def externals(interp_truth=None):
     """name -> model.  ``.name`` entries are methods on list receivers."""
     def truth(v):
@@ -362,7 +367,7 @@ def externals(interp_truth=None):
         "power": lambda a, k: arith("**", a[0], a[1]), "add": lambda a, k: arith("+", a[0], a[1]), "subtract": lambda a, k: arith("-", a[0], a[1]),
         "clip": lambda a, k: _map(lambda v: (to_poly(v) if (a[1] if len(a) > 1 else k.get("min_value")) is None else fn("max", to_poly(v), to_poly(a[1] if len(a) > 1 else k.get("min_value")))), a[0]),
         "abs": _absf, "exp": _ew1("exp"), "log": _ew1("log"),
-        "tolist": lambda a, k: a[0],
+        "tolist": lambda a, k: a[0] if a else _not_handled(),
         "concatenate": lambda a, k: _concat(a[0], _axis(k, a)),
         "reshape": lambda a, k: _reshape(a[0], a[1]),
         "sum": lambda a, k: _sum_axis(a[0], _axis(k, a)),
